@@ -50,6 +50,8 @@ fn get_charset(headers: &HeaderMap, default_charset: Option<Charset>) -> Charset
 #[derive(Debug)]
 pub struct ResponseReader {
     inner: CompressedReader,
+    // The end of the body has been reported to the caller.
+    ended: bool,
     #[cfg(feature = "charsets")]
     charset: Charset,
 }
@@ -63,13 +65,17 @@ impl ResponseReader {
     ) -> ResponseReader {
         ResponseReader {
             inner: reader,
+            ended: false,
             charset: get_charset(headers, request.base_settings.default_charset),
         }
     }
 
     #[cfg(not(feature = "charsets"))]
     pub(crate) fn new<B>(_: &HeaderMap, _: &PreparedRequest<B>, reader: CompressedReader) -> ResponseReader {
-        ResponseReader { inner: reader }
+        ResponseReader {
+            inner: reader,
+            ended: false,
+        }
     }
 
     /// Write the response to any object that implements `Write`.
@@ -231,7 +237,16 @@ impl ResponseReader {
 impl Read for ResponseReader {
     #[inline]
     fn read(&mut self, buf: &mut [u8]) -> io::Result<usize> {
-        self.inner.read(buf)
+        // Once the end of the body has been reported, do not go back to the decoders or to the
+        // connection, which the timeout thread may shut down in the meantime.
+        if self.ended {
+            return Ok(0);
+        }
+        let n = self.inner.read(buf)?;
+        if n == 0 && !buf.is_empty() {
+            self.ended = true;
+        }
+        Ok(n)
     }
 }
 
